@@ -325,7 +325,8 @@ impl Cw20 {
     pub fn via_helper<T>(&self, f: impl FnOnce(&cw20::Cw20Contract, &cosmwasm_std::QuerierWrapper) -> cosmwasm_std::StdResult<T>) -> Option<T> {
         let router = crate::direct::Router { w: &self.w, smart: |d, e, m| cw20_base::contract::query(d, e, cosmwasm_std::from_json(m)?) };
         let q = cosmwasm_std::QuerierWrapper::new(&router);
-        f(&cw20::Cw20Contract(self.w.contract.clone()), &q).ok()
+        // a helper that aborts gives no answer (None), like one that errors
+        std::panic::catch_unwind(std::panic::AssertUnwindSafe(|| f(&cw20::Cw20Contract(self.w.contract.clone()), &q).ok())).unwrap_or(None)
     }
 
     pub fn snap(&self, with_allow: bool) -> Snap {
